@@ -73,6 +73,7 @@ type VerifC16Req struct {
 type VerifC16Op struct {
 	Op     string        `json:"op"` // register | unregister | setacl | delacl | restart
 	Client string        `json:"client"`
+	Sp     string        `json:"sp"` // setacl / delacl: the client id as it is spelled in the URL (default: url.PathEscape(Client))
 	Acl    []VerifC16Acl `json:"acl"`
 }
 
@@ -97,6 +98,13 @@ type VerifC16Res struct {
 	Ph    int    `json:"ph"`    // seq: 0 = answered before the boundary instant, 2 = sent after it, 1 = too close to tell
 }
 
+type VerifC16Get struct {
+	Sp   string        `json:"sp"`
+	St   int           `json:"st"`
+	Null bool          `json:"null"`
+	Acl  []VerifC16Acl `json:"acl"`
+}
+
 type VerifC16Sec struct {
 	Clients []string                 `json:"clients"`
 	Acls    map[string][]VerifC16Acl `json:"acls"`
@@ -112,6 +120,7 @@ type VerifC16Obs struct {
 	Listed  []string      `json:"listed,omitempty"` // list cases: the names the caller's GET /datasets returned
 	ListSt  int           `json:"listst,omitempty"`
 	ListRt  string        `json:"listrt,omitempty"`
+	Gets    []VerifC16Get `json:"gets,omitempty"` // persist: GET /security/clients/<sp>/acl after the restart
 	Before  *VerifC16Sec  `json:"before,omitempty"`
 	After   *VerifC16Sec  `json:"after,omitempty"`
 }
@@ -396,6 +405,10 @@ func (s *VerifC16Session) authHeader(t VerifC16Token) (string, error) {
 }
 
 func (s *VerifC16Session) setAcl(client string, acl []VerifC16Acl, noacl, direct bool) error {
+	return s.setAclSp(client, "", acl, noacl, direct)
+}
+
+func (s *VerifC16Session) setAclSp(client, sp string, acl []VerifC16Acl, noacl, direct bool) error {
 	if direct {
 		if noacl {
 			s.core.DeleteClientAccessControls(client)
@@ -412,7 +425,10 @@ func (s *VerifC16Session) setAcl(client string, acl []VerifC16Acl, noacl, direct
 	if err != nil {
 		return err
 	}
-	p := "/security/clients/" + url.PathEscape(client) + "/acl"
+	if sp == "" {
+		sp = url.PathEscape(client)
+	}
+	p := "/security/clients/" + sp + "/acl"
 	if noacl {
 		if st, _, b := s.do("DELETE", p, adm, "", nil); st != 200 {
 			return fmt.Errorf("delete acl: status %d %s", st, b)
@@ -530,11 +546,11 @@ func (s *VerifC16Session) runPersist(c VerifC16Case) VerifC16Obs {
 				return VerifC16Obs{Outcome: "setup-error", Detail: fmt.Sprintf("register: %d %s", st, b)}
 			}
 		case "setacl":
-			if err := s.setAcl(op.Client, op.Acl, false, false); err != nil {
+			if err := s.setAclSp(op.Client, op.Sp, op.Acl, false, false); err != nil {
 				return VerifC16Obs{Outcome: "setup-error", Detail: err.Error()}
 			}
 		case "delacl":
-			if err := s.setAcl(op.Client, nil, true, false); err != nil {
+			if err := s.setAclSp(op.Client, op.Sp, nil, true, false); err != nil {
 				return VerifC16Obs{Outcome: "setup-error", Detail: err.Error()}
 			}
 		case "restart":
@@ -548,6 +564,40 @@ func (s *VerifC16Session) runPersist(c VerifC16Case) VerifC16Obs {
 		return VerifC16Obs{Outcome: "setup-error", Detail: err.Error()}
 	}
 	obs.After = s.snapshot()
+	// what GET shows through every spelling the history used
+	seen := map[string]bool{}
+	adm2, err := s.adminAuth()
+	if err != nil {
+		return VerifC16Obs{Outcome: "setup-error", Detail: err.Error()}
+	}
+	for _, op := range c.Ops {
+		if op.Op != "setacl" && op.Op != "delacl" {
+			continue
+		}
+		sp := op.Sp
+		if sp == "" {
+			sp = url.PathEscape(op.Client)
+		}
+		if seen[sp] {
+			continue
+		}
+		seen[sp] = true
+		st, _, body := s.do("GET", "/security/clients/"+sp+"/acl", adm2, "", nil)
+		g := VerifC16Get{Sp: sp, St: st, Acl: []VerifC16Acl{}}
+		if st == 200 {
+			var l []*VerifC16Acl
+			if err := json.Unmarshal(body, &l); err != nil {
+				return VerifC16Obs{Outcome: "setup-error", Detail: "get acl: " + err.Error()}
+			}
+			g.Null = l == nil
+			for _, a := range l {
+				if a != nil {
+					g.Acl = append(g.Acl, *a)
+				}
+			}
+		}
+		obs.Gets = append(obs.Gets, g)
+	}
 	// decisions after the restart for the probing client
 	auth, err := s.authHeader(c.Token)
 	if err != nil {
